@@ -105,8 +105,12 @@ AddOffers(s, t, fed, i) ==
          THEN AddOffers([s EXCEPT !.dels = @ + 1], t, fed, i + 1)
          ELSE AddOffers(s, t, fed, i + 1)
 
+(* One notification of the change feed is offered to a client at most once,  *)
+(* however many of its paths agree with it (C06); counted by the driver at   *)
+(* the offer hook while the notification is handed to the server.            *)
 TWret ==
     /\ St("wret")
+    /\ (\A i \in 1..Len(Ev.fed) : Ev.fed[i].maxoff <= 1) = TRUE
     /\ present' = present \cup {[t |-> Ev.t, p |-> Ev.fed[i].p] : i \in {j \in 1..Len(Ev.fed) : Ev.fed[j].k = "upd" /\ ~Ev.fed[j].aux}}
     /\ sub' = [n \in DOMAIN sub |-> IF sub[n].settled /\ ~sub[n].ended THEN AddOffers(sub[n], Ev.t, Ev.fed, 1) ELSE sub[n]]
     /\ UNCHANGED <<cfgv, vers, wcount, stable>>
